@@ -417,7 +417,7 @@ func c17SigFeatures(a *ast.Schema) []string {
 	var out []string
 	for _, f := range c17Features(a) {
 		switch {
-		case strings.HasPrefix(f, "str:"), f == "empty-enum", f == "appliesTo:empty-list", f == "decl-named-like-builtin", f == "ref-spelled-Set",
+		case strings.HasPrefix(f, "str:"), strings.HasPrefix(f, "namespace-segment:"), f == "empty-enum", f == "appliesTo:empty-list", f == "decl-named-like-builtin", f == "ref-spelled-Set",
 			f == "common=entity-name", f == "annotation-key:reserved-keyword", f == "typeref:__cedar":
 			out = append(out, f)
 		}
@@ -510,6 +510,9 @@ func c17CheckValid(w *mon.W, cs c17Case) {
 			}
 			rc, err, site, _ := c17Resolve(schema.NewSchemaFromAST(c))
 			if err != nil || site != "" {
+				return nil
+			}
+			if dangling0 := c17Dangling(a); !dangling0 && c17Dangling(c) {
 				return nil
 			}
 			tries := 1
@@ -740,11 +743,29 @@ func c17Tables() []c17Case {
 				},
 			})
 		}
-		if x != "Set" && !c17contains(c17Prims, x) && !c17contains(c17Exts, x) {
-			add("table:ident-as-namespace-name", &ast.Schema{
-				Namespaces: ast.Namespaces{types.Path(x): {Entities: ast.Entities{"E": {}, "F": {ParentTypes: ent("E", x+"::E"), Shape: ast.RecordType{"a": {Type: ast.TypeRef(x + "::E")}}}},
-					Actions: ast.Actions{"a": {AppliesTo: &ast.AppliesTo{Principals: ent("E"), Resources: ent(x + "::F")}}, "b": {Parents: []ast.ParentRef{ast.NewParentRef(ast.EntityTypeRef(x+"::Action"), "a")}}}},
-					types.Path(x + "::" + x): {Entities: ast.Entities{"G": {ParentTypes: ent(x + "::E")}}}},
+	}
+	// B2. every schema-grammar keyword / built-in identifier as a namespace name (alone and as the first,
+	// middle and last segment) with qualified references into it in every position the grammar has
+	nsIdents := append(append([]string{}, idents...), "Action")
+	for _, x := range nsIdents {
+		for _, N := range []string{x, "A::" + x, x + "::B", "A::" + x + "::B", x + "::" + x} {
+			q := func(base string) string { return N + "::" + base }
+			add("table:ident-as-namespace-segment", &ast.Schema{
+				Entities: ast.Entities{"G": {Shape: ast.RecordType{"a": {Type: ast.TypeRef(q("Item"))}, "b": {Type: ast.Set(ast.EntityTypeRef(q("E")))}}, Tags: ast.TypeRef(q("T3"))}},
+				Namespaces: ast.Namespaces{
+					types.Path(N): {
+						Entities: ast.Entities{"Item": {}, "E": {ParentTypes: ent(q("Item"), "Item"), Tags: ast.TypeRef(q("Item")), Shape: ast.RecordType{
+							"a": {Type: ast.TypeRef(q("Item"))}, "b": {Type: ast.EntityTypeRef(q("Item")), Optional: true}, "c": {Type: ast.Set(ast.TypeRef(q("Item")))},
+							"d": {Type: ast.Set(ast.Set(ast.EntityTypeRef(q("Item"))))}, "e": {Type: ast.RecordType{"x": {Type: ast.TypeRef(q("CT"))}}}, "f": {Type: ast.TypeRef("Item")}}}},
+						CommonTypes: ast.CommonTypes{"CT": {Type: ast.RecordType{"k": {Type: ast.EntityTypeRef(q("Item"))}}}, "T2": {Type: ast.Set(ast.TypeRef(q("CT")))}, "T3": {Type: ast.TypeRef(q("Item"))}},
+						Actions: ast.Actions{"a": {AppliesTo: &ast.AppliesTo{Principals: ent(q("Item")), Resources: ent(q("E"), "E"), Context: ast.TypeRef(q("CT"))}},
+							"b": {Parents: []ast.ParentRef{ast.NewParentRef(ast.EntityTypeRef(q("Action")), "a")}, AppliesTo: &ast.AppliesTo{Principals: ent("Item"), Resources: ent("Item"), Context: ast.RecordType{"p": {Type: ast.TypeRef(q("Item"))}}}}},
+					},
+					"Other": {
+						Entities: ast.Entities{"F": {ParentTypes: ent(q("Item")), Shape: ast.RecordType{"a": {Type: ast.TypeRef(q("Item"))}, "s": {Type: ast.Set(ast.EntityTypeRef(q("E")))}}, Tags: ast.Set(ast.TypeRef(q("T3")))}},
+						Actions:  ast.Actions{"o": {Parents: []ast.ParentRef{ast.NewParentRef(ast.EntityTypeRef(q("Action")), "a")}, AppliesTo: &ast.AppliesTo{Principals: ent(q("Item")), Resources: ent("F"), Context: ast.TypeRef(q("CT"))}}},
+					},
+				},
 			})
 		}
 	}
@@ -837,7 +858,7 @@ func c17contains(xs []string, x string) bool {
 
 func C17(c *mon.Ctx) {
 	c.Rule = "case = one schema AST built programmatically (own generator: namespaces, chained common types, nested records, optional attributes, sets, entity/extension/common references " +
-		"qualified and unqualified, enums, action groups with qualified and unqualified parents, annotations, names over every character class, schema-grammar keywords and built-in type names as declaration names, nil vs empty containers). " +
+		"qualified and unqualified, enums, action groups with qualified and unqualified parents, annotations, names over every character class, schema-grammar keywords and built-in type names as declaration names and as namespace segments (Set, entity, String, ... alone and as first/middle/last segment) with qualified references into those namespaces in every type position, parent list, principal/resource list and action-parent type, nil vs empty containers). " +
 		"Oracle: Resolve() of the in-memory AST (no codec involved) vs Resolve() after MarshalCedar/UnmarshalCedar, MarshalJSON/UnmarshalJSON, text->JSON, JSON->text, JSON->JSON and after parsing the text of an independent printer " +
 		"(multi-name declarations, optional '=', trailing commas, comments, bracketed singletons, alternative escapes); compared semantically (nil==empty, parent/principal/resource/enum-value lists as sets, annotations by key); " +
 		"second rendering must be byte-identical to the first. Unresolvable schemas (14 mutation kinds both formats can express) must stay unresolvable or be rejected by the parser. " +
@@ -848,6 +869,7 @@ func C17(c *mon.Ctx) {
 		"a common type and an entity type with the same fully qualified name cannot be told apart in the text format: such schemas take the JSON paths only",
 		"an action with no appliesTo and an action whose principal or resource list is empty are both 'never applicable' and compare equal (the text format cannot spell an empty list)",
 		"an entity type and an enum of one name in one namespace (only expressible in the AST, rejected by Resolve) are not generated",
+		"namespace segments range over plain identifiers and every schema-grammar keyword / built-in type name the pinned text parser accepts there (Set, Action, entity, action, type, namespace, enum, tags, appliesTo, principal, resource, context, attributes, Entity, Record, Extension, String, Long, Bool, Boolean, ipaddr, decimal, datetime, duration); the reserved Cedar keywords in, is, if, then, else, like, has, true, false and __cedar are rejected by the parser as identifiers (probed) and stay excluded from type, namespace and path-segment names",
 	}
 	c.Floor = 2000
 	depth := 2
